@@ -188,9 +188,11 @@ func GenABCfg(rng *sim.Rand, tier string, prop string) ABCfg {
 	if c.MTU <= 128 {
 		// (with timestamps and SACK blocks a 68-byte path leaves one byte of payload per segment - finding
 		// F17: a transfer of hundreds of kilobytes would be hundreds of thousands of frames in one instant)
+		// (the bound is on the run: 100 000 bytes over all directions of all connections, acknowledgements come on top)
+		lim := 50000 / c.NConn
 		for i := range c.Bytes {
-			if c.Bytes[i] > 60000 {
-				c.Bytes[i] = 60000
+			if c.Bytes[i] > lim {
+				c.Bytes[i] = lim
 			}
 		}
 	}
